@@ -18,6 +18,7 @@ import asyncio
 import copy
 import json
 import logging
+import re
 import sys
 import traceback
 import types
@@ -279,11 +280,20 @@ async def run_e2e(job):
                 return True
         return False
 
-    for i, op in enumerate(job['ops']):
-        dt, kind, args = op[0], op[1], op[2:]
-        if dt:
-            await asyncio.sleep(dt / 1000.0)
-        res.setdefault('op_marks', []).append([len(sim.requests), len(simslave.FakeAsyncHTTPClient.attempts), vloop.vtime_ms()])
+    side_tasks = []      # master / device commands started by 'at' triggers, running while a request is in flight
+    triggers = []
+
+    def on_request(method, path):
+        for tr in triggers:
+            if tr['armed'] and tr['m'] == method and re.fullmatch(tr['p'], path.rstrip('/') or '/'):
+                if tr['skip'] > 0:
+                    tr['skip'] -= 1
+                    continue
+                tr['armed'] = False
+                side_tasks.append(asyncio.ensure_future(run_op(tr['op_index'], tr['op'][0], tr['op'][1:], in_flight=[method, path])))
+    sim.request_hook = on_request
+
+    async def run_op(i, kind, args, in_flight=None):
         try:
             if kind == 'sv':
                 sim.set_value(args[0], args[1])
@@ -297,10 +307,21 @@ async def run_e2e(job):
                 sim.set_device_attr(args[0], args[1])
             elif kind == 'sfull':
                 sim.full_update()
+            elif kind == 'slow':         # how the device answers PATCH /ports/<id>/value from now on: None | ['never'] | ['later', ms]
+                sim.slow[args[0]] = args[1] if len(args) > 1 else None
             elif kind == 'down':
                 sim.set_net(False, args[0] if args else None)
             elif kind == 'up':
                 sim.set_net(True)
+            elif kind == 'at':           # arm: when a request matching args[0] reaches the device, run the op args[1] meanwhile
+                spec = args[0]
+                triggers.append({'armed': True, 'm': spec['m'], 'p': spec['p'], 'skip': int(spec.get('skip', 0)),
+                                 'op': args[1], 'op_index': i})
+            elif kind == 'mp':           # PATCH /devices/<name> on the master
+                rr = await api_result(M.slaves_api.patch_slave_device(
+                    Handler('PATCH', '/api/devices/%s' % name), name=name, params=copy.deepcopy(args[0])))
+                res.setdefault('device_patches', []).append({'op': i, 't': vloop.vtime_ms(), 'args': jsonable(args),
+                                                             'in_flight': in_flight, 'result': jsonable(rr[:3])})
             elif kind in ('mv', 'ma', 'md'):
                 before = bool(slave.is_online())
                 if kind == 'mv':
@@ -320,25 +341,39 @@ async def run_e2e(job):
                 mp = await master_ports(M, name)
                 md = await master_devices(M)
                 res['edits'].append({'op': i, 't': vloop.vtime_ms(), 'kind': kind, 'args': jsonable(args),
-                                     'online_before': before, 'online_after': after, 'result': jsonable(rr[:3] if rr[0] == 'error' else rr[:1]),
+                                     'online_before': before, 'online_after': after, 'in_flight': in_flight,
+                                     'result': jsonable(rr[:3] if rr[0] == 'error' else rr[:1]),
                                      'ports': mp, 'devices': md, 'persisted': await persisted(M, name),
                                      'req_index': len(sim.requests)})
             elif kind == 'sync':
                 sim.set_net(True)
+                if side_tasks:
+                    await asyncio.wait(side_tasks, timeout=60)
                 ok = await quiesce()
+                ok = ok and all(t.done() for t in side_tasks)
                 res['syncs'].append({
                     'op': i, 't': vloop.vtime_ms(), 'quiescent': ok,
                     'slave_ports': [sim.port_json(p) for p in sim.ports], 'slave_device': copy.deepcopy(sim.device),
                     'master_ports': await master_ports(M, name), 'master_devices': await master_devices(M),
                     'online': bool(slave.is_online()), 'req_index': len(sim.requests), 'vc_index': len(vc_log),
                     'delivered_index': len(sim.delivered),
+                    'triggers_not_fired': [tr['op_index'] for tr in triggers if tr['armed']],
                 })
+                for tr in triggers:
+                    tr['armed'] = False
             elif kind == 'wait':
                 pass
             else:
-                res['errors'].append('unknown op %r' % (op,))
+                res['errors'].append('unknown op %r' % ([kind] + list(args),))
         except Exception:
-            res['errors'].append('op %d %r raised: %s' % (i, op, traceback.format_exc()[-800:]))
+            res['errors'].append('op %d %r raised: %s' % (i, [kind] + list(args), traceback.format_exc()[-800:]))
+
+    for i, op in enumerate(job['ops']):
+        dt, kind, args = op[0], op[1], op[2:]
+        if dt:
+            await asyncio.sleep(dt / 1000.0)
+        res.setdefault('op_marks', []).append([len(sim.requests), len(simslave.FakeAsyncHTTPClient.attempts), vloop.vtime_ms()])
+        await run_op(i, kind, args)
     res['requests'] = jsonable(sim.requests)
     res['refused_by_client'] = jsonable(simslave.FakeAsyncHTTPClient.refused_by_client)
     res['attempts'] = jsonable(simslave.FakeAsyncHTTPClient.attempts)
